@@ -140,3 +140,11 @@ impl AtomicEpoch {
         }
     }
 }
+
+#[cfg(circ_verif)]
+impl AtomicEpoch {
+    /// Raw value (`epoch << 1 | pinned`), read without passing a yield point.
+    pub(crate) fn verif_peek(&self) -> usize {
+        self.data.load(Ordering::SeqCst)
+    }
+}
